@@ -11,13 +11,17 @@
      kf_felement_bounds                              functions::element result bounds -1000..1000  (C01/C02)
      kf_noop_route                                   functions::implies / cumulative enforce nothing (C01)
      kf_linreif_zero                                 D11 through the reified linear routes          (C01)
-     kf_linreif_len, kf_gcc_len                      unvalidated length mismatches                  (C17)
+     kf_gcc_len                                      unvalidated length mismatch                    (C17)
+     kf_linreif_len, table arity                     REPAIRED in /repo (e45322d, e2596cd): the refutation
+                                                     lemmas below speak about `rbuild` (the model of the tree
+                                                     before the repairs); linreif_len_fixed_exact /
+                                                     table_fixed_malformed state the repaired behaviour (C17)
      kf_nonbool_arg                                  boolean routes on non-0/1 operands (precondition)
    Routes with auxiliary variables hidden from the caller (implies, bool_clause, gcc, functions::xor) are
    modelled and tied (structurally and semantically) but not covered by the theorems below. *)
 Require Import Selen.Model.Prelude Selen.Model.Dom Selen.Model.Views Selen.Model.PropDefs.
 Require Import Selen.Model.Props.Basic Selen.Model.Props.LinInt Selen.Model.Propagate Selen.Model.Search Selen.Model.EngineSpec.
-Require Import Selen.Model.Api Selen.Model.Lower Selen.Model.Routes.
+Require Import Selen.Model.Props.Global Selen.Model.Api Selen.Model.Lower Selen.Model.Routes.
 Require Import Selen.Proofs.LowerProofs Selen.Proofs.RoutesProofs.
 
 (* ---- the bounds given to a result variable contain every value the function takes on the operand
@@ -153,6 +157,7 @@ Theorem verr_not_in_prepare : exists prog s ps,
 Proof. exact RoutesProofs.verr_not_in_prepare. Qed.
 Print Assumptions verr_not_in_prepare.
 
+(* pre-repair model only (`rbuild`); repaired by e2596cd, see table_fixed_malformed / table_arity_fixed_witness *)
 Theorem table_arity_panics : rpanic (rbuild [SB (SInt 0 3); SB (SInt 0 3); SCall (RTable [0%nat; 1%nat] [[1; 2; 3]])]) = true.
 Proof. exact RoutesProofs.table_arity_panics. Qed.
 Print Assumptions table_arity_panics.
@@ -185,6 +190,59 @@ Theorem cumulative_fixed_rejects : exists s ps,
   forallb (fun t => negb (rallsatb ps (asgl ([0; 0; 2; 2] ++ t)))) (all_asgs [[0; 1]; [0; 1]; [0; 1]]) = true.
 Proof. exact RoutesProofs.cumulative_fixed_rejects. Qed.
 Print Assumptions cumulative_fixed_rejects.
+
+(* ---- the repairs e45322d / e2596cd (model of the current tree: call_fixed / rbuild_fixed) ---- *)
+(* lin_*_reif / bool_lin_*_reif with |coeffs| <> |vars|: equals(b, 0) is posted; that is exactly the documented
+   meaning of the malformed call (route_sem: "the reification is false") *)
+Theorem linreif_len_fixed_exact : forall op cs xs k b m, length cs <> length xs -> (b < rnvars (rst m))%nat ->
+  let m' := call_fixed (RLinReif op cs xs k b) m in
+  rpanic m' = rpanic m /\ rverr m' = rverr m /\ rpend m' = rpend m /\ ruser m' = ruser m /\
+  rexact (rst m) (rst m') (fun a => route_sem (RLinReif op cs xs k b) 0%nat a = true) /\
+  (forall a, route_sem (RLinReif op cs xs k b) 0%nat a = true <-> a b = 0).
+Proof. exact RoutesProofs.linreif_len_fixed_exact. Qed.
+Print Assumptions linreif_len_fixed_exact.
+
+(* Model::table with a tuple of the wrong arity: no panic, a validation error is recorded (returned by every
+   solving call), the posted propagator keeps the well-formed tuples and means what the call means *)
+Theorem table_fixed_malformed : forall xs ts m, table_okb xs ts = false ->
+  let m' := call_fixed (RTable xs ts) m in
+  rverr m' = true /\ rpanic m' = rpanic m /\ rcallerr m' = rcallerr m /\
+  exists ts', snd (rst m') = snd (rst m) ++ [PTable xs ts'] /\ fst (rst m') = fst (rst m) /\
+    table_okb xs ts' = true /\ forall a, rsat (PTable xs ts') a = route_sem (RTable xs ts) 0%nat a.
+Proof. exact RoutesProofs.table_fixed_malformed. Qed.
+Print Assumptions table_fixed_malformed.
+
+(* on every call the repairs do not touch, the two models coincide; hence C01 + C03 for route programs on the current tree *)
+Theorem rbuild_fixed_eq : forall prog, (forall r, In (SCall r) prog -> fixed_same r = true) ->
+  rbuild_fixed prog = rbuild prog.
+Proof. exact RoutesProofs.rbuild_fixed_eq. Qed.
+Print Assumptions rbuild_fixed_eq.
+
+Theorem routes_model_solutions_fixed : forall decls calls pick sols best,
+  forallb is_decl decls = true -> forallb fixed_same calls = true ->
+  let m0 := rbuild (map SB decls) in
+  calls_ok calls m0 ->
+  forall s ps, rlower (rbuild_fixed (map SB decls ++ map SCall calls)) = RLOk s ps ->
+  rvalidate s ps = None ->
+  enumerate pick (map denote_route ps) s = SOk sols best ->
+  let means a := inst a (map decl_dom decls) /\ calls_means calls m0 a in
+  NoDup sols /\
+  (forall t, In t sols -> all_fixed t = true /\ means (asg_of t)) /\
+  (forall a, means a -> exists t, In t sols /\ inst a t).
+Proof. exact RoutesProofs.routes_model_solutions_fixed. Qed.
+Print Assumptions routes_model_solutions_fixed.
+
+Theorem linreif_len_fixed_witness :
+  rlower (rbuild_fixed [SB (SInt 0 3); SB (SInt 0 3); SB SBool; SCall (RLinReif OEq [1] [0%nat; 1%nat] 2 2%nat)])
+  = RLOk [drange 0 3; drange 0 3; drange 0 1] [PB (PEq (VVar 2) (VConst 0))].
+Proof. exact RoutesProofs.linreif_len_fixed_witness. Qed.
+Print Assumptions linreif_len_fixed_witness.
+
+Theorem table_arity_fixed_witness :
+  let m := rbuild_fixed [SB (SInt 0 3); SB (SInt 0 3); SCall (RTable [0%nat; 1%nat] [[1; 2; 3]; [1; 2]])] in
+  rpanic m = false /\ rverr m = true /\ snd (rst m) = [PTable [0%nat; 1%nat] [[1; 2]]].
+Proof. exact RoutesProofs.table_arity_fixed_witness. Qed.
+Print Assumptions table_arity_fixed_witness.
 
 (* ---- non-vacuity: a program mixing arithmetic, global, reified and boolean routes lies inside calls_ok;
    its lowering is the dump the tie compares ---- *)
